@@ -30,6 +30,14 @@ CLAIMS = {
     'C06': dict(cat='exploration', tech='bounded-exhaustive enumeration of singular inputs in forked children with crash classification, judged by symbolic elimination',
                 text='Every structurally singular pattern n<=3 (n=4 with explicit zero column/row), explicit zeros, exact cancellation, both drivers, nprocs 1..2, 4 precisions; '
                      'outcome must be a normal return with 0<info<=n at a position consistent with symbolic elimination, B/X untouched, objects destroyable.', ref='5 C06'),
+    'C07': dict(cat='exploration', engine='mcexpert', tech='bounded-exhaustive enumeration of patterns x scalings x every trans/storage/fact/equed combination of the expert driver against long-double references',
+                text='Every nonsingular pattern n<=3 (n=4 thorough) x scalings forcing each equed outcome x trans {N,T,C} x {NC,NR} x {DOFACT,EQUILIBRATE,FACTORED} x nrhs x leading dimensions x 4 precisions: info in {0,n+1}, X solves the ORIGINAL system (componentwise backward error), A_out/B_out equal the scalings the flag reports, padding untouched.', ref='5 C07'),
+    'C11': dict(cat='exploration', engine='mcexpert', tech='bounded-exhaustive enumeration over an exponent alphabet (all small matrices) for ?gsequ/?laqgs, and of the driver wiring, against exact references',
+                text='All matrices up to 2x3/3x2 over a 10-letter exponent alphabet spanning the whole range (zero rows/columns, denormals, near overflow) through ?gsequ and all threshold classes of ?laqgs; plus the expert-driver wiring on the C07 enumeration: factors, ratios, amax, zero row/column index, apply rule, A_out/B_out.', ref='5 C11'),
+    'C12': dict(cat='exploration', engine='mcexpert', tech='bounded-exhaustive enumeration + graded family against a long-double inverse',
+                text='rcond between 1/(|A||inv A|) and 1/(|A||inv(A)e/n|) in the norm the statement prescribes (1-norm / inf-norm by transpose option, whatever the storage), info=n+1 iff rcond<eps with X still returned, pivot growth recomputed from the returned factors; on the C07 enumeration and a graded family with prescribed singular values.', ref='5 C12'),
+    'C13': dict(cat='exploration', engine='mcexpert', tech='bounded-exhaustive enumeration + graded family against quad-precision exact solutions',
+                text='Returned berr equals the recomputed componentwise backward error of the returned X (on the equilibrated system), is O((n+1)eps) for cond<1/sqrt(eps); 40*ferr dominates the true relative error against the quad-precision exact solution of the original system; all trans/equed/precision combinations.', ref='5 C13'),
     'C09': dict(cat='exploration', tech='bounded-exhaustive enumeration; the statement implemented literally as a checker on every returned factorization',
                 text='wellformed(L,U,perm_r,perm_c) checks bijections, supernode partition/maps, row-list shape, U placement, extent disjointness, nnz fields and dependency order on every '
                      'successful factorization of the C02 enumeration (first-time; refactored ones in C08).', ref='5 C09'),
@@ -72,6 +80,7 @@ def main():
         'engines': [
             {'name': 'mcsched', 'path': 'engines/mcsched', 'serves_properties': ['C01', 'C02', 'C03', 'C04', 'C05', 'C09'],
              'kind_free_text': 'Engine S: stateless preemption-bounded DFS over thread interleavings of the real factorization (baton scheduler over renamed pthread calls + source hooks), monitors and end-of-execution oracles in every execution, crash-resumable'},
+            {'name': 'mcexpert', 'path': 'engines/mcexpert', 'serves_properties': ['C07', 'C11', 'C12', 'C13'], 'kind_free_text': 'Engine Q: expert-driver enumeration (trans x storage x fact x equed x scalings) against long-double / quad references'},
             {'name': 'mcseq', 'path': 'engines/mcseq', 'serves_properties': ['C01', 'C02', 'C05', 'C06', 'C09', 'C16'],
              'kind_free_text': 'Engine Q: bounded-exhaustive enumeration of inputs, options, call histories and faults of the sequential API against long-double reference models, crash-isolated'},
         ],
